@@ -1,7 +1,7 @@
 #!/bin/bash
 # Runs the repository's own test suite (hooks off) and prints a summary. The one test listed in BASELINE.json as
-# always failing (recv::tests::clear_recv_buffer_caps_capacity_before_overflow) is expected to fail.
-cd /repo && cargo test --workspace --no-fail-fast --offline > /tmp/repo-tests.log 2>&1
-echo "cargo exit $?" >> /tmp/repo-tests.log
-grep -E "^test .* FAILED" /tmp/repo-tests.log | sort -u
-grep -E "test result" /tmp/repo-tests.log | awk '{p+=$4; f+=$6} END {print "passed",p,"failed",f}'
+# always failing (recv::tests::clear_recv_buffer_caps_capacity_before_overflow) is expected to fail. Memory is capped so
+# that a test that stops terminating cannot exhaust the machine. Expected summary: "passed 689 failed 1".
+cd /repo && (ulimit -v 8000000; timeout 1500 cargo test --workspace --no-fail-fast --offline > /tmp/repo-tests.log 2>&1; echo "cargo exit $?" >> /tmp/repo-tests.log)
+grep -E "^test .* FAILED|signal|didn't exit" /tmp/repo-tests.log | sort -u | head
+grep -E "test result" /tmp/repo-tests.log | awk '{p+=$4; f+=$6} END {print "passed",p,"failed",f, (p==689 && f==1) ? "AS-EXPECTED" : "UNEXPECTED"}'
